@@ -76,8 +76,17 @@ def nonfinite(s):
     return walk(s)
 
 
+OPS = [0]
+
+
 def judge(s):
     """Violation tail or None for one real schema."""
+    OPS[0] += 1
+    r = _judge(s)
+    return r
+
+
+def _judge(s):
     try:
         text = repr(s)
     except Exception as e:  # noqa: BLE001
@@ -90,7 +99,9 @@ def judge(s):
     except Exception as e:  # noqa: BLE001
         return f"represent-raises:{type(e).__name__}"
     try:
+        OPS[0] += 3          # repr, represent, repr again
         back = eval(text, dict(NS))  # noqa: S307
+        OPS[0] += 1
     except Exception as e:  # noqa: BLE001
         return f"eval-raises:{type(e).__name__}"
     if not isinstance(back, Schema):
@@ -102,6 +113,7 @@ def judge(s):
             return "rebuilt-schema-not-equal"
     except Exception as e:  # noqa: BLE001
         return f"eq-raises:{type(e).__name__}"
+    OPS[0] += 4              # fp x2, ==, !=
     if repr(back) != text:
         return "repr-of-rebuilt-differs"
     return None
@@ -124,6 +136,7 @@ def all_cases(tier):
 
 def worker(shard, nshards, tier, seed):
     acc = Acc()
+    OPS[0] = 0
     cases = all_cases(tier)
     for i in range(shard, len(cases), nshards):
         tag, x = cases[i]
@@ -156,6 +169,7 @@ def worker(shard, nshards, tier, seed):
                 if tail:
                     acc.violation(f"C06|{tail}|{type(s).__name__}[{declared_props(s)}]",
                                   {"kind": x, "chain": e1.chain_src(chain), "repr": safe_repr(s, 400)})
+    acc.count("operations", OPS[0])
     return acc
 
 
@@ -163,7 +177,7 @@ def run(tier, seed):
     acc = parallel(worker, tier, seed)
     cov = {
         "states": acc.n["schemas"],
-        "transitions": acc.n["schemas"] * 3,
+        "transitions": acc.n["operations"],
         "traces_validated_against_impl": acc.n["schemas"],
         "evaluations": acc.n["schemas"],
         "distinct_nontrivial": acc.n["schemas"],
